@@ -799,6 +799,8 @@ class Interp(object):
         return self.call_body(key, args)
 
     def call_body(self, key, args, targs=None):
+        if not self.prog.has_body(key):
+            raise Inconclusive("function %s not found in the crate (renamed or removed?)" % key, self.where())
         body = self.prog.body(key)
         sub = None
         names = body.get("type_params")
